@@ -80,11 +80,11 @@ pub fn vcs(rng: &mut Rng) -> String {
     let mut s = url(rng);
     if rng.chance(1, 2) {
         s.push_str(" -b ");
-        s.push_str(rng.s(&["main", "debian/sid", "feature-x"]));
+        s.push_str(rng.s(&["main", "debian/sid", "feature-x", "caf\u{e9}", "\u{65e5}\u{672c}"]));
     }
     if rng.chance(1, 2) {
         s.push_str(" [");
-        s.push_str(rng.s(&["sub", "path/to", "x"]));
+        s.push_str(rng.s(&["sub", "path/to", "x", "d\u{e9}b"]));
         s.push(']');
     }
     s
